@@ -16,7 +16,23 @@ import comp_codec
 NAME = "router"
 
 
-def make_message(tag, device, policy):
+_REUSED = {}
+
+
+def make_message(tag, device, policy, reuse_key=None):
+    """reuse_key: the sender keeps ONE EnableBLOB object and re-sends it with other contents (a client is free to do that)"""
+    if tag == "enableBLOB" and reuse_key is not None and reuse_key in _REUSED:
+        m = _REUSED[reuse_key]
+        m.device = device
+        m.value = policy or "Never"
+        return m
+    m = _make_message(tag, device, policy)
+    if tag == "enableBLOB" and reuse_key is not None:
+        _REUSED[reuse_key] = m
+    return m
+
+
+def _make_message(tag, device, policy):
     cls, base, optional, child, vkind = comp_codec.MSGS[tag]
     kw = dict(base)
     if "device" in kw or tag in ("getProperties", "message"):
@@ -213,7 +229,7 @@ def run_plain(case, outcome):
             else:
                 _, tag, device, policy, sender = op
                 sd = None if sender == "n" else (cli(int(sender[1:])) if sender[0] == "c" else dev(int(sender[1:])))
-                msg = make_message(tag, device, policy)
+                msg = make_message(tag, device, policy, reuse_key=(id(router), sender) if sender[0] == "c" and int(sender[1:]) % 2 == 0 else None)
                 # what the router sees is the attribute the constructor stored
                 enc_ops[-1] = enc_op(["S", tag, getattr(msg, "device"), policy, sender])
                 router.process_message(msg, sd)
